@@ -164,27 +164,55 @@ def c10_history(job, drv):
     try:
         sel = job.get("sel", "/d")
         cachepath = os.path.join(w.root, sel.strip("/"), ".cache.pygopherd.dir")
-        cfg_ref = cacheless_config(drv, w.root, overrides)
+        # The cacheless reference listings come from a MIRROR of the tree in which no cache file ever exists
+        # (same mutations, same ageing): what the directory lists as must not depend on a cache file lying in it.
+        mirror = os.path.join(w.tmp, "mirror", "root")
+        os.makedirs(mirror)
+        drv.build_tree(mirror, job["tree"])
+        cfg_mirror = cacheless_config(drv, mirror, overrides)
         protokeys = job["protokeys"]
         shift = 0
         res = []
-        refs0 = references(drv, cfg_ref, protokeys)
+
+        def mirror_refs():
+            drv.reset_lazies()          # the document root is one of the lazily cached values
+            try:
+                return references(drv, cfg_mirror, protokeys)
+            finally:
+                drv.reset_lazies()
+
+        refs0 = mirror_refs()
         res.append({"op": "init", "now_ms": int(time.time() * 1000), "shift_s": 0, "refs": refs0})
         for o in job["ops"]:
             k = o["op"]
             if k == "mut":
                 apply_actions(w.root, o["actions"], drv)
-                res.append({"op": "mut", "now_ms": int(time.time() * 1000), "shift_s": shift,
-                            "refs": references(drv, cfg_ref, protokeys)})
+                apply_actions(mirror, o["actions"], drv)
+                res.append({"op": "mut", "now_ms": int(time.time() * 1000), "shift_s": shift, "refs": mirror_refs()})
             elif k == "tick":
                 s = int(o["s"])
                 if s:
                     age_tree(w.root, s)
+                    age_tree(mirror, s)
                 shift += s
                 res.append({"op": "tick", "shift_s": shift})
             elif k == "sleep":
                 time.sleep(o["ms"] / 1000.0)
                 res.append({"op": "sleep"})
+            elif k == "damage":
+                # the cache file is cut off (a writer that died, a full disk): the system calls of such a writer
+                cut = None
+                try:
+                    with open(cachepath, "rb") as f:
+                        b = f.read()
+                    cut = min(int(len(b) * o["frac"]), max(len(b) - 1, 0))
+                    wait_mid_second()
+                    with open(cachepath, "wb") as f:
+                        f.write(b[:cut])
+                except OSError:
+                    pass
+                res.append({"op": "damage", "now_ms": int(time.time() * 1000), "shift_s": shift, "cut": cut,
+                            "size": len(b) if cut is not None else None})
             elif k in ("list", "probe"):
                 rq = (protokeys if k == "list" else job["probekeys"])[o["key"]]
                 r = observed_request(drv, w.config, cachepath, drv.s2b(rq["data"]), rq["tls"])
